@@ -84,7 +84,7 @@ def run(tier):
     # the same chains running from the compile unit into a partial unit of a dwz alt file (DW_FORM_GNU_ref_alt);
     # the DIEs of the two files sit at the same offsets
     altv = []
-    for n in ((5,) if tier == "quick" else (5, 6)):
+    for n in (5,):            # (six DIEs: tens of thousands of forests, more than 20 minutes of generation)
         altv += D.gen_forests("altattr", n, wd)
     total_alt = len(altv)
     if tier == "quick" and len(altv) > 400:
